@@ -63,6 +63,7 @@ if a.verbosity9:
     for k, v in cnt.most_common(40): print("%8d  max-iter %5d  %s" % (v, last[k], k))
     print("status", r["status"], "wall %.1fs rss %sMB" % (r["wall"], r["maxrss_mb"])); print((r["out"] + r["err"])[-1500:]); sys.exit(0)
 extra = ["--trace", "--property", a.trace] if a.trace else []
+if a.trace: job["slice"] = False   # unsliced trace: every logged nondet value is present
 r = ovmbmc.run_cbmc_once(ovmbmc.cbmc_cmd(gb, a.entry, job, a.solver, extra), a.timeout, 10)
 if r["status"] == "timeout": print("TIMEOUT after", a.timeout); sys.exit(3)
 pr = ovmbmc.parse_cbmc(r["out"])
